@@ -130,7 +130,7 @@ func (s *Summary) add(o *Summary) {
 }
 
 var (
-	fMode       = flag.String("mode", "run", "run | worker | one | names | shared | fresh")
+	fMode       = flag.String("mode", "run", "run | worker | one | names | shared | fresh | conc")
 	fVectors    = flag.String("vectors", "", "ndjson file of TLC vectors")
 	fOut        = flag.String("out", "", "result file (ndjson)")
 	fK          = flag.Int("k", 2, "concrete encodings per vector")
@@ -148,6 +148,9 @@ var (
 	fHangMax    = flag.Int("hangmax", 6, "stop exercising a (class, group) after this many hangs")
 	fMutHangMax = flag.Int("muthangmax", 30, "stop mutating inputs of a (walker, group) after this many hangs")
 	fChunk      = flag.Int("chunk", 400, "vectors per worker invocation")
+	fSolo       = flag.Int("solo", 0, "the first N vectors get a worker process each (process wide limiters are fresh)")
+	fDur        = flag.Duration("dur", 3*time.Second, "conc: duration of the concurrent stage")
+	fReaders    = flag.Int("readers", 3, "conc: reader goroutines")
 )
 
 func seed() int64 {
@@ -169,6 +172,8 @@ func main() {
 		runOne()
 	case "names":
 		runNames()
+	case "conc":
+		runConc()
 	case "shared", "fresh":
 		runTranscript(*fMode == "shared")
 	default:
@@ -232,7 +237,14 @@ func runParent() {
 		os.Exit(2)
 	}
 	var chunks []chunk
-	for a := 0; a < total; a += *fChunk {
+	solo := *fSolo
+	if solo > total {
+		solo = total
+	}
+	for a := 0; a < solo; a++ {
+		chunks = append(chunks, chunk{a, a + 1})
+	}
+	for a := solo; a < total; a += *fChunk {
 		b := a + *fChunk
 		if b > total {
 			b = total
